@@ -4,6 +4,7 @@
 set -eu
 P=$1; K=$2; ID=$3; NOTE=$4
 SRC=${SEEDSRC:-/tmp/seed/out}/$P; DST=/verif/seeded/$ID
+[ -e $DST ] && { echo "refusing to overwrite $DST"; exit 1; }
 mkdir -p $DST
 cp $SRC/patch$K.diff $DST/patch.diff
 cp $SRC/demo$K.py $DST/demo.py
